@@ -46,7 +46,8 @@ import (
 // <readerkind> of stream (the model ignores it) is the reader that delivers <reads>: 0 a scripted struct reader
 // (no WriteTo), 4 an io.Pipe fed by a goroutine (no WriteTo); and, where <reads> is empty or one chunk together
 // with io.EOF: 1 bytes.Reader, 5 strings.Reader (both WriteTo), 2 io.LimitReader over a longer strings.Reader,
-// 3 struct{ io.Reader } around a strings.Reader (both without WriteTo) — otherwise these fall back to 0.
+// 3 struct{ io.Reader } around a strings.Reader (both without WriteTo) — otherwise these fall back to 0;
+// 6..8 sized readers that have been partly consumed before Stream gets them (engine_render_sized.go).
 type renderEngine struct{}
 
 func init() { register(renderEngine{}) }
@@ -243,6 +244,8 @@ func streamReader(chunks []rdChunk, kind string) (rd io.Reader, stop func()) {
 		return io.LimitReader(strings.NewReader(string(all)+"trailer"), int64(len(all))), stop
 	case kind == "3" && simple:
 		return struct{ io.Reader }{strings.NewReader(string(all))}, stop
+	case rsIsPartKind(kind) && simple:
+		return rsPartReader(kind, all), stop
 	}
 	return &scriptedReader{chunks: chunks}, stop
 }
@@ -441,6 +444,7 @@ func (renderEngine) Run(ops []string) (ans []string, oracle []string) {
 				ans[endIdx] = fmt.Sprintf("%s %s sent=%s errs=%d ;; len=%d st=%d ct=%s", word, rec.logString(), rec.sent,
 					len(ctx.Errors), ctx.Length(), ctx.StatusCode(), rec.ctString())
 				oracle = append(oracle, renderOracle(cfg, rec, execs, escaped)...)
+				oracle = append(oracle, rsLengthOracle(cfg, rec, execs, escaped)...)
 				if cfg.wkind&rkRoundTrip != 0 {
 					oracle = append(oracle, roundTripOracle(cfg, rec, lines, execs, escaped)...)
 				}
@@ -1005,6 +1009,13 @@ func roundTripOracle(cfg rReqCfg, rec *renderRec, lines []rLine, execs []rExec, 
 		}
 		defer resp.Body.Close()
 		bs, err := io.ReadAll(resp.Body)
+		if errors.Is(err, io.ErrUnexpectedEOF) {
+			// the recorder saw a complete response (checked above): the server cut the connection because the
+			// handler wrote less than the response announced
+			out = append(out, fmt.Sprintf("C19 real server: the client could not read the body (%v after %d bytes, Content-Length %d), the recording writer saw %q",
+				err, len(bs), resp.ContentLength, rec.body()))
+			return false
+		}
 		if err != nil {
 			return false
 		}
@@ -1380,6 +1391,7 @@ func (renderEngine) genHelper(r *Rand, faulty bool) string {
 		return fmt.Sprintf("blob %d %s %s %s", st, hx(r.Pick(rCTs)), rData(r), rScript(r, faulty, 1))
 	case x < 35:
 		reads, rk := rReads(r)
+		rk = rsPartKind(r, reads, rk)
 		return fmt.Sprintf("stream %d %s %s %s %s", st, hx(r.Pick(rCTs)), reads, rScript(r, faulty, 3), rk)
 	case x < 47:
 		return fmt.Sprintf("json %d %s %s %s", st, val, encJSON(v, 0), rScript(r, faulty, 1))
@@ -1439,6 +1451,9 @@ func genAuto(r *Rand, val string, faulty bool) string {
 }
 
 func (e renderEngine) Gen(r *Rand, tier string) Case {
+	if r.Chance(1, 30) { // stream "sized": Stream from partly consumed sized readers
+		return rsGenSized(r, tier)
+	}
 	stream := r.Pick([]string{"single", "single", "single", "multi", "faulty", "auto"})
 	meth := r.Pick([]string{"GET", "GET", "GET", "HEAD", "POST"})
 	var ops []string
@@ -1552,5 +1567,14 @@ func (renderEngine) Corpus() []Case {
 			"xml 200 "+tv+" "+encXML(tvv, "")+" 99:0,5:0 -", "end"),
 		// two helpers in one request: the second cannot change status or the type on the wire
 		mk("corpus-twice", "req GET none none", "json 201 "+obj+" "+encJSON(ov, 0)+" -", "text 500 "+hx("late")+" - 0", "end"),
+		// Stream from sized readers that were partly consumed before (magic read off, Seek, head of a section):
+		// on the recorder, with the optional interfaces of a real writer, and behind a real server
+		mk("corpus-sized", "req GET none none", "stream 200 "+hx("image/png")+" "+hx("IHDR....IDAT....IEND")+":f - 6", "end",
+			"stream 200 "+hx("text/plain")+" "+hx("the rest of the text\n")+":f - 7", "end",
+			"stream 206 "+hx("a/b")+" "+hx("section")+":f - 8", "end", "stream 200 "+hx("a/b")+" - - 6", "end",
+			"req GET none none 3", "stream 200 "+hx("a/b")+" "+hx("readfrom")+":f - 6", "end", "stream 201 "+hx("a/b")+" "+hx("x")+":f - 8", "end",
+			"req POST none none 4", "stream 200 "+hx("image/png")+" "+hx("IHDR....IDAT....IEND")+":f - 6", "end",
+			"stream 200 "+hx("text/plain")+" "+hx("the rest of the text\n")+":f - 7", "end",
+			"stream 200 "+hx("a/b")+" "+hx("0123456789abcdef0123456789abcdef")+":f - 8", "end"),
 	}
 }
